@@ -1,8 +1,10 @@
 """C09 - galaxies follow the HOD threshold rule and inherit their host (also used by C10).
 
 Deductive part (E1, real ASTs): `wrap` maps |x| < 3L/2 into [-L/2, L/2) by a whole box; `fast_concatenate` returns a1 ++ a2 for
-every Nthread >= 1 with every index written by exactly one iteration (C10).  The two-pass kernels gen_cent / gen_sats are
-checked by the bounded stand-in below (run-time evaluation of the contract written from the property statement), not proved.
+every Nthread >= 1 with every index written by exactly one iteration (C10).  The two-pass kernels gen_cent / gen_sats (box observer) are
+under the functional contracts of contracts/hodk.py (stacked markers -> CODE, row RK(c, q) of tracer c carries host q); the gen_gals
+assembly, the light-cone branch and floating point are checked by the bounded stand-in below (run-time evaluation of the contract
+written from the property statement).
 
 Run-time contract: for fixed tables and their stored uniform randoms a host carries tracer T iff its random falls in T's slice
 of [0,1] (slices stacked LRG, ELG, QSO; widths = the package's mean-occupation functions at the documented arguments x
@@ -304,16 +306,16 @@ def check(run):
     for w in (1, 2):
         run.prove(spec_concat_empty(w))
     from contracts import hodk
-    hodk.prove_gen_cent(run, 'C09', run.tier)
+    hodk.prove_kernels(run, 'C09', run.tier)
     run.discharge()
     bounded(run, 'C09')
-    run.extra['explanation'] = ('wrap, fast_concatenate and the two-pass central kernel gen_cent (box observer; tracer subsets x RSD; see contracts/hodk.py) proved by the E1 engine '
-                                'on the real ASTs; gen_sats, the light-cone origin branch and the gen_gals assembly are covered by the bounded stand-in '
+    run.extra['explanation'] = ('wrap, fast_concatenate and the two-pass kernels gen_cent / gen_sats (box observer; tracer subsets x RSD x ranks; see contracts/hodk.py) proved by the E1 engine '
+                                'on the real ASTs; the light-cone origin branch and the gen_gals assembly are covered by the bounded stand-in '
                                 '(run-time contract evaluation against a sequential reference), not proved')
     run.assumptions += ['occupation functions are "the package\'s mean-occupation functions": the reference calls the same compiled functions at the arguments the statement names',
                         'exact ties (random == slice edge) are unconstrained and avoided by redrawing', 'gen_sats_nfw (random draws) is outside the statement',
                         'floats as reals in the E1 pieces; np.linspace/rint/astype contract assumed',
-                        'gen_cent: occupation functions n_cen_LRG / N_cen_ELG_v1 / N_cen_QSO are named uninterpreted functions (their callee contract is "result == F(args)"); '
+                        'gen_cent / gen_sats: occupation functions n_cen_LRG / N_cen_ELG_v1 / N_cen_QSO / n_sat_LRG_modified / N_sat_elg / N_sat_generic and 10**x are named uninterpreted functions (their callee contract is "result == F(args)"); '
                         'Nout[:, c, 0].cumsum() block contract assumed (running sums); the tie comparison (<= or <) is read from the source because the property leaves ties free; '
                         'randoms > 0 is a precondition (a random of exactly 0 with a disabled first tracer is the zero-width-slice corner)']
 
